@@ -1,8 +1,216 @@
 import MidnightZK.Model.Common
-/-! Line-protocol handler of property C06 (stub: answers `unimplemented`). -/
-namespace MidnightZK.C06.Driver
+import MidnightZK.Model.C06.Edwards
+import MidnightZK.Model.C06.Weierstrass
+import MidnightZK.Gen.C06Gates
+/-! Line-protocol handler of property C06.
 
-def answer (_line : String) : String := "unimplemented"
+Requests: `<curve> <op> <args…>` with `curve ∈ {jub, secp, bls}`.
+Points: Jubjub `w:X:Y` / `f:X:Y` (witness / constant), Weierstrass `w:I:X:Y` / `f:I:X:Y`.
+Answers: `ok <point>` (Jubjub: followed by ` | ` and the rows of the nine ECC columns),
+`unsat`, or `bad-op`. -/
+namespace MidnightZK.C06.Driver
+open MidnightZK MidnightZK.C06
+
+def jub : EdCurve :=
+  { p := Gen.nativeModulus, d := Gen.jubD, r := Gen.jubR, h := Gen.jubCofactor,
+    scalarBits := Gen.jubScalarBits }
+def secp : WCurve := { p := Gen.secpP, b := Gen.secpB, r := Gen.secpR, scalarBits := 256 }
+def bls : WCurve := { p := Gen.blsP, b := Gen.blsB, r := Gen.blsR, scalarBits := 255 }
+
+/-- Cofactor of BLS12-381 G1 hard-coded in `assert_in_bls12_381_subgroup`. -/
+def blsCofactor : Nat := 0x396c8c005555e1568c00aaab0000aaab
+
+/-! ### Jubjub -/
+
+structure JPt where
+  fixed : Bool
+  pt : Pt
+
+def parseJPt (s : String) : Option JPt :=
+  match s.splitOn ":" with
+  | [k, x, y] => do
+    let x ← parseNat? x
+    let y ← parseNat? y
+    if k = "w" then some ⟨false, (x, y)⟩ else if k = "f" then some ⟨true, (x, y)⟩ else none
+  | _ => none
+
+def fmtCell : Option Nat → String
+  | none => "_"
+  | some v => toHex v
+
+def fmtRow (r : EdCurve.Row) : String :=
+  (if r.qDouble then "d" else "-") ++ (if r.qCondAdd then "c" else "-") ++
+    (if r.qMem then "m" else "-") ++ ":" ++ ",".intercalate (r.cells.map fmtCell)
+
+def fmtRows (rs : List EdCurve.Row) : String :=
+  if rs.isEmpty then "-" else ";".intercalate (rs.map fmtRow)
+
+def inputRows (ps : List JPt) : List EdCurve.Row :=
+  ps.flatMap (fun p => if p.fixed then [] else jub.assignRows p.pt)
+
+def jubAnswer (P : Pt) (ins : List JPt) (opRows : List EdCurve.Row) : String :=
+  s!"ok {toHex P.1} {toHex P.2} | {fmtRows (inputRows ins ++ opRows)}"
+
+/-- `n s1 P1 … sn Pn` -/
+def parseJTerms : List String → Option (List (Nat × JPt))
+  | [] => some []
+  | s :: p :: rest => do
+    let s ← parseNat? s
+    let p ← parseJPt p
+    let t ← parseJTerms rest
+    some ((s, p) :: t)
+  | _ => none
+
+def answerJub (ws : List String) : String :=
+  match ws with
+  | ["add", p, q] =>
+    match parseJPt p, parseJPt q with
+    | some p, some q => jubAnswer (jub.add p.pt q.pt) [p, q] [jub.addRow p.pt q.pt]
+    | _, _ => "bad-op"
+  | ["double", p] =>
+    match parseJPt p with
+    | some p => jubAnswer (jub.add p.pt p.pt) [p] [jub.addRow p.pt p.pt]
+    | _ => "bad-op"
+  | ["neg", p] =>
+    match parseJPt p with
+    | some p => jubAnswer (jub.neg p.pt) [p] []
+    | _ => "bad-op"
+  | ["assign", p] =>
+    match parseJPt p with
+    | some p => jubAnswer (jub.assign p.pt) [] (jub.assignRows p.pt)
+    | _ => "bad-op"
+  | ["assign_fixed", p] =>
+    match parseJPt p with
+    | some p => jubAnswer p.pt [] []
+    | _ => "bad-op"
+  | ["coords", p] =>
+    -- point_from_coordinates: a fresh `assign` of the same value, then two equality assertions
+    match parseJPt p with
+    | some p => jubAnswer (jub.assign p.pt) [p] (jub.assignRows p.pt)
+    | _ => "bad-op"
+  | ["select", b, p, q] =>
+    match parseJPt p, parseJPt q with
+    | some p, some q =>
+      if b = "1" then jubAnswer p.pt [p, q] [] else if b = "0" then jubAnswer q.pt [p, q] []
+      else "bad-op"
+    | _, _ => "bad-op"
+  | ["is_equal", p, q] =>
+    match parseJPt p, parseJPt q with
+    | some p, some q => s!"ok {fmtBool (p.pt == q.pt)}"
+    | _, _ => "bad-op"
+  | "msm" :: n :: rest =>
+    match n.toNat?, parseJTerms rest with
+    | some n, some ts =>
+      if ts.length ≠ n then "bad-op" else
+      let scalars := ts.map (fun t => EdCurve.bitsLE jub.scalarBits t.1)
+      let bases := ts.map (fun t => t.2.pt)
+      match jub.msm scalars bases with
+      | some r => jubAnswer r (ts.map (·.2)) (jub.msmRows scalars bases)
+      | none => "panic"
+    | _, _ => "bad-op"
+  | ["mul_const", s, p] =>
+    match parseNat? s, parseJPt p with
+    | some s, some p =>
+      let s := s % jub.r
+      jubAnswer (jub.mulByConstant s p.pt) [p] (jub.mulByConstantRows s p.pt)
+    | _, _ => "bad-op"
+  | ["mul_bits", nbits, s, p] =>
+    -- `scalar_from_le_bytes` (256 bits) / `convert` (255 bits) followed by `msm` of one term
+    match nbits.toNat?, parseNat? s, parseJPt p with
+    | some nbits, some s, some p =>
+      let bits := EdCurve.bitsLE nbits s
+      jubAnswer (jub.mul bits p.pt) [p] (jub.mulRows bits p.pt)
+    | _, _, _ => "bad-op"
+  | _ => "bad-op"
+
+/-! ### Weierstrass chips -/
+
+def parseWPt (s : String) : Option WPt :=
+  match s.splitOn ":" with
+  | [_, i, x, y] => do
+    let x ← parseNat? x
+    let y ← parseNat? y
+    if i = "1" then some ⟨true, x, y⟩ else if i = "0" then some ⟨false, x, y⟩ else none
+  | _ => none
+
+def fmtWPt (P : WPt) : String := s!"{fmtBool P.isId} {toHex P.x} {toHex P.y}"
+
+def fmtRes : WCurve.Res → String
+  | .ok P => "ok " ++ fmtWPt P
+  | .unsat => "unsat"
+
+def parseWTerms : List String → Option (List (Nat × WPt))
+  | [] => some []
+  | s :: p :: rest => do
+    let s ← parseNat? s
+    let p ← parseWPt p
+    let t ← parseWTerms rest
+    some ((s, p) :: t)
+  | _ => none
+
+def answerW (E : WCurve) (isBls : Bool) (ws : List String) : String :=
+  match ws with
+  | ["add", p, q] =>
+    match parseWPt p, parseWPt q with
+    | some p, some q => fmtRes (.ok (E.add p q))
+    | _, _ => "bad-op"
+  | ["double", p] =>
+    match parseWPt p with
+    | some p => fmtRes (.ok (E.double p))
+    | _ => "bad-op"
+  | ["neg", p] =>
+    match parseWPt p with
+    | some p => fmtRes (.ok (E.neg p))
+    | _ => "bad-op"
+  | ["assign", p] | ["assign_fixed", p] =>
+    match parseWPt p with
+    | some p => fmtRes (.ok (E.canon p))
+    | _ => "bad-op"
+  | ["coords", p] =>
+    match parseWPt p with
+    | some p => fmtRes (E.pointFromCoordinates p)
+    | _ => "bad-op"
+  | ["select", b, p, q] =>
+    match parseWPt p, parseWPt q with
+    | some p, some q =>
+      if b = "1" then fmtRes (.ok p) else if b = "0" then fmtRes (.ok q) else "bad-op"
+    | _, _ => "bad-op"
+  | ["is_equal", p, q] =>
+    match parseWPt p, parseWPt q with
+    | some p, some q => s!"ok {fmtBool ((p.isId && q.isId) || (p.isId == q.isId && p.x == q.x && p.y == q.y))}"
+    | _, _ => "bad-op"
+  | "msm" :: n :: rest =>
+    match n.toNat?, parseWTerms rest with
+    | some n, some ts =>
+      if ts.length ≠ n then "bad-op" else
+      fmtRes (.ok (E.msm (ts.map (fun t => (t.1 % E.r, t.2)))))
+    | _, _ => "bad-op"
+  | "msm_bits" :: n :: rest =>
+    match n.toNat?, parseWTerms rest with
+    | some n, some ts => if ts.length ≠ n then "bad-op" else fmtRes (E.msmBits ts)
+    | _, _ => "bad-op"
+  | ["mul_const", s, p] =>
+    match parseNat? s, parseWPt p with
+    | some s, some p => fmtRes (E.mulByConstant (s % E.r) p)
+    | _, _ => "bad-op"
+  | ["subgroup_check", p] =>
+    if !isBls then "bad-op" else
+    match parseWPt p with
+    | some p =>
+      -- root = h⁻¹·P (honest prover); the circuit asserts `mul_by_constant(h, root) = P`
+      let root := E.smul (invMod (blsCofactor % E.r) E.r) p
+      match E.mulByConstant (blsCofactor % E.r) root with
+      | .ok q => if E.canon q == E.canon p then fmtRes (.ok (E.canon p)) else "unsat"
+      | .unsat => "unsat"
+    | _ => "bad-op"
+  | _ => "bad-op"
+
+def answer (line : String) : String :=
+  match words line with
+  | "jub" :: ws => answerJub ws
+  | "secp" :: ws => answerW secp false ws
+  | "bls" :: ws => answerW bls true ws
+  | _ => "bad-op"
 
 end MidnightZK.C06.Driver
 
